@@ -26,6 +26,9 @@ class ConditionalExpressionTransformer(converter.Base):
   """Converts conditional expressions to functional form."""
 
   def visit_IfExp(self, node):
+    # Visit the children first, so that nested conditional expressions are
+    # converted as well.
+    node = self.generic_visit(node)
     template = '''
         ag__.if_exp(
             test,
